@@ -33,8 +33,24 @@ fn value(i: u8) -> V {
         0 => V::Int(10),
         1 => V::Str("s".into()),
         2 => V::List(vec![V::Int(1), V::Int(2)]),
+        // the same number as value 0 in the other numeric types (random histories only)
+        4 => V::UInt(10),
+        5 => V::f(10.0),
         // binding a name to null is a binding like any other
         _ => V::Null,
+    }
+}
+
+/// value index 6 (random histories only): host data whose conversion fails - `add_variable` returns the error and
+/// the name is bound (or not bound) exactly as before
+struct Unconvertible;
+impl serde::Serialize for Unconvertible {
+    fn serialize<Z: serde::Serializer>(&self, z: Z) -> Result<Z::Ok, Z::Error> {
+        use serde::ser::SerializeMap;
+        // a map with a key no CEL map can have
+        let mut m = z.serialize_map(Some(1))?;
+        m.serialize_entry(&Option::<String>::None, &1i64)?;
+        m.end()
     }
 }
 
@@ -89,6 +105,14 @@ fn run_scope(ctx: &mut Context, h: &History, pos: &mut usize, m: &mut Scopes, pr
         let op = h.ops[*pos];
         *pos += 1;
         match op {
+            Op::Define(n, 6, _) => {
+                match guard(|| ctx.add_variable(NAMES[n as usize], Unconvertible).is_err()) {
+                    Ok(true) => {}
+                    Ok(false) => return Err(format!("add_variable({}, <a map with a None key>) succeeded", NAMES[n as usize])),
+                    Err(p) => return Err(format!("add_variable({}, <a map with a None key>) {}", NAMES[n as usize], p.short())),
+                }
+                observe(ctx, m, h, progs, &format!("after op {} {:?} (a conversion that fails)", *pos - 1, op))?;
+            }
             Op::Define(n, v, how) => {
                 let val = value(v);
                 let cv = to_cel(&val).unwrap();
@@ -212,7 +236,7 @@ pub struct Tmpl {
     pub functions: bool,
 }
 
-pub const TEMPLATES: [&str; 25] = [
+pub const TEMPLATES: [&str; 27] = [
     "A + [1, 2].map(A, A * 2)[0] + A",
     "[[1, 2], [3]].map(A, A.map(B, B + 1))",
     "[1].map(A, A)[0] + A",
@@ -243,6 +267,9 @@ pub const TEMPLATES: [&str; 25] = [
     "[B].map(A, [10, 20].map(B, A + B))",
     "[A].map(B, [7].map(A, [A, B]))",
     "[B].map(A, [[1], [2, 3]].map(B, [A, B.size()]))",
+    // a second stage whose body mentions the first stage's variable name: there it means the outer binding (or nothing)
+    "[1, 2, 3].map(A, A * 2).filter(B, B < A)",
+    "[1, 2, 3].filter(A, A > 1).map(B, [A, B])",
 ];
 
 fn instantiate(t: &Tmpl) -> String {
@@ -309,6 +336,8 @@ fn template_expr(t: &Tmpl) -> E {
         22 => mac(Mac::Map, l(vec![v(&bb)]), &a, mac(Mac::Map, l(vec![i(10), i(20)]), &bb, E::bin(O::Add, v(&a), v(&bb)))),
         23 => mac(Mac::Map, l(vec![v(&a)]), &bb, mac(Mac::Map, l(vec![i(7)]), &a, l(vec![v(&a), v(&bb)]))),
         24 => mac(Mac::Map, l(vec![v(&bb)]), &a, mac(Mac::Map, l(vec![l(vec![i(1)]), l(vec![i(2), i(3)])]), &bb, l(vec![v(&a), E::mcall(v(&bb), "size", vec![])]))),
+        25 => mac(Mac::Filter, mac(Mac::Map, l(vec![i(1), i(2), i(3)]), &a, E::bin(O::Mul, v(&a), i(2))), &bb, E::bin(O::Lt, v(&bb), v(&a))),
+        26 => mac(Mac::Map, mac(Mac::Filter, l(vec![i(1), i(2), i(3)]), &a, E::bin(O::Gt, v(&a), i(1))), &bb, l(vec![v(&a), v(&bb)])),
         _ => E::bin(
             O::Or,
             mac(Mac::Exists, l(vec![i(1), i(5), i(25)]), &bb, E::bin(O::Eq, E::bin(O::Mul, v(&a), v(&a)), v(&bb))),
@@ -529,6 +558,7 @@ pub fn run(r: &mut Runner) {
                 match s {
                     Op::Open => depth += 1,
                     Op::Close => depth -= 1,
+                    Op::Define(n, _, how) if u.chance(1, 4) => s = Op::Define(n, 4 + u.below(3) as u8, how),
                     _ => {}
                 }
                 ops.push(s);
